@@ -42,14 +42,31 @@ def same(t1, t2):
     nb = re.findall(r"<(-?\d+)>", b)
     if len(na) != len(nb) or re.sub(r"<-?\d+>", "N", a) != re.sub(r"<-?\d+>", "N", b):
         return False
-    for x, y in zip(na, nb):
+    da, db = hexdigits(t1), hexdigits(t2)
+    if len(da) != len(na) or len(db) != len(nb):
+        da, db = [0] * len(na), [0] * len(nb)
+    for i, (x, y) in enumerate(zip(na, nb)):
         x, y = int(x), int(y)
         if x == y:
             continue
         lo, hi = min(x, y), max(x, y)
-        if not (lo < 0 <= hi and any(hi - lo == (1 << w) and -lo <= (1 << (w - 1)) for w in (8, 16, 32))):
+        # a hex literal printed with d digits shows a field of 4*d bits: 0x00ff (16 bits) is not -1
+        wmin = 4 * max(da[i], db[i])
+        if not (lo < 0 <= hi and any(w >= wmin and hi - lo == (1 << w) and -lo <= (1 << (w - 1)) for w in (8, 16, 32))):
             return False
     return True
+
+
+def hexdigits(t):
+    """per numeric literal of a rendering: number of hex digits it is printed with (0 for decimal)"""
+    t = t.strip().lower()
+    if "  --  " in t:
+        t = t.split("  --  ")[-1].strip()
+    out = []
+    for m in NUM.finditer(t):
+        sp = m.group(2)
+        out.append(len(sp) - 2 if sp.startswith("0x") else (len(sp) - 1 if sp.startswith("$") else 0))
+    return out
 
 
 def signature(t1, t2):
